@@ -5,7 +5,7 @@ import Solvor.Flow.Model
 request `["maxflow", n, arcs, s, t, implFlow|null, implObjective|null]`
   nodes are `0..n-1`; arcs = `[[u, v, cap], …]` in the iteration order of the `graph` argument;
   implFlow = `[[u, v, x], …]` the implementation's returned dict
-reply `[value, flow, vis, augs, cancels, done, modelCert, implChecks|null, partialCancels]`
+reply `[value, flow, vis, augs, cancels, done, modelCert, implChecks|null, partialCancels, repushAfterCancel]`
   value/flow/vis/augs : the mirror `Net.maxFlow` (flow = positive entries `[u, v, x]`)
   modelCert           : verified checker `chkMaxFlow` on the mirror's own flow and cut
   implChecks          : `[keys, cap, cons, value, cut]` – the verified checker's clauses on the
@@ -42,7 +42,7 @@ def handleMaxFlow (n : Nat) (arcs : Arcs) (s t : Nat) (impl : Option FlowT) (obj
     | _, _ => Val.null
   (Val.arr [Val.int o.value, ofTriples o.flow.positive, Val.ofNats o.vis, Val.int o.augs,
     Val.int o.cancels, Val.bool o.done, Val.bool (N.chkMaxFlow o.flow o.vis o.value), implChecks,
-    Val.int o.pcancel]).render
+    Val.int o.pcancel, Val.int o.repush]).render
 
 /-! ### C09
 
